@@ -64,6 +64,19 @@ func genTextKey(t *rapid.T, label string) string {
 	for i := range b {
 		b[i] = 0x21 + b[i]%(0x7f-0x21) // printable ASCII without space
 	}
+	// The text protocol delimits tokens with 0x20 only: every other byte except
+	// CR/LF belongs to the key.  Plant whitespace-looking bytes (TAB, VT, FF,
+	// UTF-8 NBSP / NEL / ideographic space / em space) and bytes >= 0x80
+	// strictly inside the key -- the first and last byte stay printable because
+	// the parser trims the ends of the line (seed C07o: strings.Fields).
+	if n >= 5 && rapid.IntRange(0, 2).Draw(t, label+"Odd") == 0 {
+		odd := []string{"\t", "\v", "\f", "\xc2\xa0", "\xc2\x85", "\xe3\x80\x80", "\xe2\x80\x83", "\x80", "\xff", "\x1c", "\x00"}
+		for k := rapid.IntRange(1, 3).Draw(t, label+"OddN"); k > 0; k-- {
+			s := rapid.SampledFrom(odd).Draw(t, label+"OddS")
+			at := rapid.IntRange(1, n-1-len(s)).Draw(t, label+"OddAt")
+			copy(b[at:], s)
+		}
+	}
 	return string(b)
 }
 
